@@ -306,6 +306,10 @@ def run(ctx):
             inside += ["%s at %s" % (sorted(ks - {"infix", "?"}), H.loc(n_)) for n_, ks in kinds_ if ks & {"prefix", "postfix"}]
     ctx.inst("C10.R1", "build_pratt_parser#nothing-between-infix-levels", not inside, "prefix / postfix registrations inside the loop that registers the infix groups: %s" % (inside or "none"), "blots-core/src/precedence.rs")
 
+    # ---------------- R11 the names that cannot be bound are the published built-in names, no more
+    from rules import printers as P_
+    P_.L7_builtins(ctx, "C10.R11", core)
+
     # ---------------- R2 four-way agreement
     ctx.rule("C10.R2", "grammar operator alternatives = PRECEDENCE_TABLE rules = Pratt registrations = AST-builder match arms (infix, prefix, postfix, primary), and (Rule, BinaryOp) pairs agree between table and builder", floor=60)
     builder = core.hir_fn("blots_core::expressions::pairs_to_expr_inner")["body"]
@@ -640,6 +644,21 @@ def run(ctx):
 
     # ---------------- R8 the lambda-body copy of infix_usage admits the same layout
     ctx.rule("C10.R8", "lambda_infix_usage is infix_usage with a smaller operator set: alternative by alternative the gaps before and after the operator admit the same layout (spaces / line breaks, optional / mandatory), so an expression keeps its meaning when it becomes a lambda body", floor=2)
+    if "lambda_expression" in G.rules and "expression" in G.rules:
+        # the body of a lambda is the expression rule again, term for term: same prefixes, postfixes and repetition, with the two
+        # lambda-specific sub-rules in place of `term` and `infix_usage`
+        import json as _json
+        ren_ = {"term": "lambda_term", "infix_usage": "lambda_infix_usage"}
+
+        def renamed(e):
+            if isinstance(e, dict):
+                if e.get("k") == "ident" and e.get("v") in ren_:
+                    return dict(e, v=ren_[e["v"]])
+                return {k_: renamed(v_) for k_, v_ in e.items()}
+            return e
+        same_ = _json.dumps(renamed(G.expr("expression")), sort_keys=True) == _json.dumps(G.expr("lambda_expression"), sort_keys=True)
+        same_ty = G.ty("expression") == G.ty("lambda_expression")
+        ctx.inst("C10.R8", "lambda_expression==expression", same_ and same_ty, "lambda_expression is expression with term -> lambda_term and infix_usage -> lambda_infix_usage: %s (same atomicity: %s)" % (same_, same_ty), "blots-core/src/grammar.pest")
     if "lambda_infix_usage" in G.rules and "infix_usage" in G.rules:
         A, B = G.alts(G.expr("infix_usage")), G.alts(G.expr("lambda_infix_usage"))
         if len(A) != len(B):
